@@ -31,18 +31,26 @@ var clk = &clock{}
 
 // Reset starts a new virtual clock and installs the idle hook (called by the harness inside the
 // execution, i.e. after the scheduler is attached).
+//
+//go:norace
 func Reset() {
 	clk = &clock{}
 	sched.SetIdleHook(advance)
 }
 
 // Now returns the virtual time in nanoseconds since the start of the execution.
+//
+//go:norace
 func VirtualNow() int64 { return clk.now }
 
 // Fired returns how many timers have fired.
+//
+//go:norace
 func Fired() int { return clk.Fired }
 
 // Pending returns the number of armed timers.
+//
+//go:norace
 func Pending() int {
 	n := 0
 	for _, t := range clk.timers {
@@ -55,6 +63,8 @@ func Pending() int {
 
 // advance fires the earliest armed timer (advancing virtual time to its deadline). It is the
 // scheduler's idle hook: it runs only when no thread is enabled.
+//
+//go:norace
 func advance() bool {
 	var act []*vtimer
 	for _, t := range clk.timers {
@@ -79,6 +89,7 @@ func advance() bool {
 	return true
 }
 
+//go:norace
 func fire(t *vtimer) {
 	clk.Fired++
 	if t.period > 0 {
@@ -97,6 +108,7 @@ func fire(t *vtimer) {
 	}
 }
 
+//go:norace
 func arm(d real.Duration, period real.Duration, f func()) *vtimer {
 	clk.seq++
 	if d < 0 {
@@ -114,6 +126,7 @@ type Timer struct {
 	r *real.Timer
 }
 
+//go:norace
 func NewTimer(d real.Duration) *Timer {
 	if !sched.Attached() {
 		r := real.NewTimer(d)
@@ -123,6 +136,7 @@ func NewTimer(d real.Duration) *Timer {
 	return &Timer{C: t.c, t: t}
 }
 
+//go:norace
 func (t *Timer) Stop() bool {
 	if t.r != nil {
 		return t.r.Stop()
@@ -132,6 +146,7 @@ func (t *Timer) Stop() bool {
 	return was
 }
 
+//go:norace
 func (t *Timer) Reset(d real.Duration) bool {
 	if t.r != nil {
 		return t.r.Reset(d)
@@ -147,6 +162,7 @@ func (t *Timer) Reset(d real.Duration) bool {
 	return was
 }
 
+//go:norace
 func AfterFunc(d real.Duration, f func()) *Timer {
 	if !sched.Attached() {
 		r := real.AfterFunc(d, f)
@@ -156,6 +172,7 @@ func AfterFunc(d real.Duration, f func()) *Timer {
 	return &Timer{t: t}
 }
 
+//go:norace
 func After(d real.Duration) <-chan real.Time { return NewTimer(d).C }
 
 // Ticker mirrors time.Ticker on the virtual clock.
@@ -165,6 +182,7 @@ type Ticker struct {
 	r *real.Ticker
 }
 
+//go:norace
 func NewTicker(d real.Duration) *Ticker {
 	if d <= 0 {
 		panic("non-positive interval for NewTicker")
@@ -177,6 +195,7 @@ func NewTicker(d real.Duration) *Ticker {
 	return &Ticker{C: t.c, t: t}
 }
 
+//go:norace
 func (t *Ticker) Stop() {
 	if t.r != nil {
 		t.r.Stop()
@@ -185,6 +204,7 @@ func (t *Ticker) Stop() {
 	t.t.active = false
 }
 
+//go:norace
 func (t *Ticker) Reset(d real.Duration) {
 	if t.r != nil {
 		t.r.Reset(d)
@@ -195,9 +215,12 @@ func (t *Ticker) Reset(d real.Duration) {
 	t.t.active = true
 }
 
+//go:norace
 func Tick(d real.Duration) <-chan real.Time { return NewTicker(d).C }
 
 // Sleep parks the thread until the virtual clock has passed d.
+//
+//go:norace
 func Sleep(d real.Duration) {
 	if !sched.Attached() {
 		real.Sleep(d)
